@@ -431,7 +431,7 @@ def _subsequence(ch, seq, contiguous):
 
 @st.composite
 def model_cases(draw, classes=None, max_nodes=5, p_node=4, p_se=4, p_ignore=4, p_constr=3, p_opts=0,
-                odd_names=True, noise=True, k_slack=2, weight_types=("int", "float"), p_float_scale=0, p_equal=4, p_len=5):
+                odd_names=True, noise=True, k_slack=2, weight_types=("int", "float"), p_float_scale=0, p_equal=4, p_len=5, p_wild=0):
     """A full model construction: class, planted instance, kwargs.  p_* are '1 in p' odds (0 = never).
     The result is a JSON case {cls, graph, flow_attr, kw, meta}; meta carries the planted witness."""
     cls = draw(st.sampled_from(classes or ALL_CLASSES))
@@ -556,10 +556,29 @@ def model_cases(draw, classes=None, max_nodes=5, p_node=4, p_se=4, p_ignore=4, p
         if ch.coin(1, 5):
             constraints.append(constraints[0])
         coverage = ch.pick([1.0, 1.0, 1.0, 0.75, 0.5, 0.34])
+        if one_in(p_wild):
+            # "wild" constraints: elements in topological order that need not lie on one route; only partially coverable,
+            # so they are used with coverage < 1 and only by differential / metamorphic checks (no witness is claimed)
+            Gt = nx.DiGraph()
+            Gt.add_nodes_from(kept_nodes)
+            Gt.add_edges_from(kept_edges)
+            if cyc:
+                order = {v: i for i, v in enumerate(kept_nodes)}
+            else:
+                order = {v: i for i, v in enumerate(nx.topological_sort(Gt))}
+            pool = sorted(kept_nodes, key=lambda v: order[v]) if node_mode else sorted(kept_edges, key=lambda e: (order[e[0]], order[e[1]]))
+            constraints = []
+            for _c in range(1 + ch.below(2)):
+                sub = [x for x in pool if ch.coin(1, 2)][:4]
+                if len(sub) >= 2:
+                    constraints.append([x if node_mode else list(x) for x in sub])
+            coverage = ch.pick([0.75, 0.5, 0.34, 0.8, 0.9])
+            if not constraints:
+                coverage = 1.0
     # ---- length-based constraint coverage (DAG classes): lengths on edges (edge mode) or on nodes (node mode)
     lengths = None
     if constraints and not cyc and one_in(p_len):
-        lengths = {el: 1 + ch.below(4) for el in (kept_nodes if node_mode else kept_edges)}
+        lengths = {el: ch.pick([1, 2, 3, 4, 1, 10, 50]) for el in (kept_nodes if node_mode else kept_edges)}
     # ---- assemble graph
     g_nodes, g_edges = [], []
     for v in kept_nodes:
